@@ -535,11 +535,11 @@ fn main() {
 
     let max_fail: usize = args.extra.get("maxfail").and_then(|s| s.parse().ok()).unwrap_or(3);
     let budget = args.extra.get("shrink").and_then(|s| s.parse().ok()).unwrap_or(if args.thorough { 180 } else { 40 });
-    let n_short: usize = args.extra.get("nshort").and_then(|s| s.parse().ok()).unwrap_or(if args.thorough { 300 } else { 26 });
-    let n_long: usize = args.extra.get("nlong").and_then(|s| s.parse().ok()).unwrap_or(if args.thorough { 24 } else { 3 });
+    let n_short: usize = args.extra.get("nshort").and_then(|s| s.parse().ok()).unwrap_or(if args.thorough { 60 } else { 12 });
+    let n_long: usize = args.extra.get("nlong").and_then(|s| s.parse().ok()).unwrap_or(if args.thorough { 5 } else { 1 });
     let scales: Vec<usize> = match args.extra.get("scale") {
         Some(s) => s.split(',').filter_map(|x| x.parse().ok()).collect(),
-        None => if args.thorough { vec![120, 999, 1000, 1001, 1500] } else { vec![120, 1001] },
+        None => if args.thorough { vec![120, 999, 1000, 1001] } else { vec![120] },
     };
 
     for (label, ops) in corpus(&args) {
